@@ -24,6 +24,67 @@ type CoerceCase struct {
 	Value   *model.Val    `json:"value,omitempty"` // nil = not provided
 	Bad     string        `json:"bad,omitempty"`   // name of the injected non-conformance
 	VarDef  bool          `json:"varDefault,omitempty"`
+	// VarAt selects an inner position of the value (list element / input-object field, counted
+	// in pre-order, -1 = none) that is supplied through a variable inside the literal.
+	VarAt int `json:"varAt"`
+}
+
+// literalWithInnerVar writes the value as a literal in which the VarAt-th inner position is a
+// variable reference; it returns the literal, the variable's declared type and its value.
+func literalWithInnerVar(s *model.Schema, ty model.TypeRef, v *model.Val, at int) (lit *model.Val, vty model.TypeRef, vval *model.Val, ok bool) {
+	n := 0
+	bad := false
+	var rec func(ty model.TypeRef, v *model.Val, top bool) *model.Val
+	rec = func(ty model.TypeRef, v *model.Val, top bool) *model.Val {
+		if v == nil || v.K == "null" {
+			return nil
+		}
+		if !top {
+			if n == at {
+				n++
+				vty, vval, ok = ty, v, true
+				return model.Var("w")
+			}
+			n++
+		}
+		t := ty.Nullable()
+		if t.IsList() {
+			if v.K != "list" {
+				return rec(t.Inner(), v, true) // list-of-one written as the bare value
+			}
+			out := model.List()
+			out.L = []*model.Val{}
+			for _, e := range v.L {
+				le := rec(t.Inner(), e, false)
+				if le == nil {
+					bad = true // a null inside a list has no literal form in this edition
+					return nil
+				}
+				out.L = append(out.L, le)
+			}
+			return out
+		}
+		td := s.Type(t.Name)
+		if td != nil && td.Kind == model.KInput && v.K == "obj" {
+			out := model.Obj()
+			for _, f := range v.O {
+				fd := td.InputField(f.N)
+				if fd == nil {
+					return nil
+				}
+				lf := rec(fd.Type, f.V, false)
+				if lf == nil {
+					continue
+				}
+				out.O = append(out.O, model.F(f.N, lf))
+			}
+			return out
+		}
+		l, _ := gen.ToLiteral(s, ty, v)
+		return l
+	}
+	lit = rec(ty, v, true)
+	return lit, vty, vval, ok && lit != nil && !bad
 }
 
 func (c *CoerceCase) schema() *model.Schema {
@@ -121,6 +182,23 @@ func c05Oracle(c *CoerceCase) (msg string, classes []string) {
 				}
 				classes = append(classes, "variable_default")
 			}
+		}
+	}
+	// (e) a variable nested inside a list / object literal contributes its coerced value
+	if valid && c.VarAt >= 0 && c.Value != nil {
+		if lit, vty, vval, ok := literalWithInnerVar(s, c.ArgType, c.Value, c.VarAt); ok {
+			cv, _ := ref.CoerceVariables(s, []*model.VarDef{{Name: "v", Type: c.ArgType}}, inputs)
+			wantArgs := ref.ArgValues(s, []*model.ArgDef{{Name: "x", Type: c.ArgType, Default: c.ArgDef}}, []*model.Arg{{Name: "x", Val: model.Var("v")}}, cv)
+			ndoc := &model.Doc{Defs: []*model.Def{{Kind: "query", Vars: []*model.VarDef{{Name: "w", Type: vty}},
+				Sel: []*model.Sel{{K: "field", Name: "probe", Args: []*model.Arg{{Name: "x", Val: lit}}}}}}}
+			ntext := model.Print(ndoc, nil).Text
+			nvars := map[string]interface{}{"w": vval.ToGo()}
+			nrun := probe(b, w, ntext, nvars)
+			wcv, _ := ref.CoerceVariables(s, ndoc.Defs[0].Vars, map[string]*model.Val{"w": vval})
+			if m := checkProbe(nrun, wantArgs, wcv, "variable nested in a literal", ntext, nvars); m != "" {
+				return m + fmt.Sprintf("\n  (the whole value through one variable: %s with %s gave the expected arguments)", vtext, canonJSON(goVars)), classes
+			}
+			classes = append(classes, "variable_nested_in_literal")
 		}
 	}
 	// (d) validation-time validity of the literal agrees with coercibility of the variable
@@ -256,6 +334,7 @@ func TestC05(t *testing.T) {
 				}
 			}
 		}
+		c.VarAt = gen.Intn(rt, -1, 5, "varAt")
 		msg, classes := c05Oracle(c)
 		for _, k := range classes {
 			stats.R.Class(k)
